@@ -1,5 +1,6 @@
 """C23 Language-server positions address the right text (conversion kernels)."""
 from kprop import run_k_property
+import c23_units
 
 Q, T = ("quick", "thorough"), ("thorough",)
 SPECS = [
@@ -7,8 +8,8 @@ SPECS = [
     dict(name="c23_char_index_utf16_4", batch="q", tiers=("quick",), bound="every UTF-8 text of <= 4 bytes, every char-boundary offset", what="char_index_to_position == LSP (line, UTF-16 character)", timeout=1200),
     dict(name="c23_index_of_line_char_utf16_4", batch="q", tiers=("quick",), bound="every UTF-8 text of <= 4 bytes, every position on line >= 1", what="get_index_of_line_char(LSP position) == byte offset of that position", timeout=1200),
     dict(name="c23_index_of_line_char_first_line_total", batch="q", tiers=Q, bound="every UTF-8 text of <= 4 bytes, positions on line 0", what="no arithmetic underflow / panic, result within the text", timeout=1200),
-    dict(name="c23_token_pieces_utf16_3", batch="q2", tiers=Q, bound="every UTF-8 text of <= 3 bytes, every token span on character boundaries", what="absolutize_relative_token: one piece per line of the token, each with its byte start and its length in UTF-16 code units", timeout=2400),
-    dict(name="c23_token_pieces_utf16_4", batch="t4", tiers=T, bound="every UTF-8 text of <= 4 bytes, every token span on character boundaries", what="as c23_token_pieces_utf16_3 (4 bytes: also four-byte scalars, two UTF-16 units)", timeout=3600, mem_gb=20),
+    dict(name="c23_token_pieces_utf16_3", batch="q2", tiers=Q, bound="every UTF-8 text of <= 3 bytes, every token span on character boundaries", what="absolutize_relative_token: one piece per line of the token, each with its byte start and its length in UTF-16 code units", timeout=2400, mem_gb=20),
+    dict(name="c23_token_pieces_utf16_4", batch="t4", tiers=T, bound="every UTF-8 text of <= 4 bytes, every token span on character boundaries", what="as c23_token_pieces_utf16_3 (4 bytes: also four-byte scalars, two UTF-16 units)", timeout=5400, mem_gb=24),
     dict(name="c23_cursor_to_literal_offset_3", batch="t5", tiers=T, bound="every UTF-8 document of <= 3 bytes, every literal [a,b) on character boundaries, every position", what="find_iso_literal_extraction_under_cursor: a received LSP position inside the literal maps to its byte offset in the literal (first-line convention +1), outside to None", timeout=3600, mem_gb=28),
     dict(name="c23_delta_utf16_6", batch="t1", tiers=T, bound="every UTF-8 text of <= 6 bytes", what="as c23_delta_utf16_4", timeout=2400),
     dict(name="c23_char_index_utf16_6", batch="t2", tiers=T, bound="every UTF-8 text of <= 6 bytes", what="as c23_char_index_utf16_4", timeout=2400),
@@ -27,7 +28,7 @@ ASSUMPTIONS = [
 ]
 
 def main():
-    run_k_property("C23", "k_lsp", SPECS, functions=FUNCTIONS, files=FILES, assumptions=ASSUMPTIONS, level="other", max_parallel=3,
+    run_k_property("C23", "k_lsp", SPECS, functions=FUNCTIONS, files=FILES, assumptions=ASSUMPTIONS, level="other", max_parallel=3, pre_stage=c23_units.pre_stage,
                    explanation="Bounded-exhaustive decision by CBMC: each conversion kernel of the language server is compiled from /repo and compared with the LSP position definition for every UTF-8 text within the byte bound (symbolic bytes constrained by the real from_utf8) and every boundary offset.")
 
 if __name__ == "__main__":
